@@ -758,7 +758,13 @@ class TaskPool(BaseTaskPool):
             (With `name` being the name of the `coroutine_function` and
             `idx` being an incrementing index.)
         """
-        base_name = f"{prefix}-{coroutine_function.__name__}-group"
+        # Not every callable has a `__name__` (e.g. a `functools.partial`).
+        func_name = getattr(
+            coroutine_function,
+            "__name__",
+            type(coroutine_function).__name__,
+        )
+        base_name = f"{prefix}-{func_name}-group"
         i = 0
         while True:
             name = f"{base_name}-{i}"
